@@ -26,6 +26,7 @@ RULE = (
     "without de-duplication to depth 3 (quick) / 5 (thorough), each replayed from scratch on fresh "
     "objects and compared with the binding model at every step.  Non-trivial: detection cases with a tie "
     "decided by manual registration; histories containing both a copy and a bind."
+    ' Also: the UGRID marker inside every usual spelling of a conventions list, detection repeated after every convention class was used by hand, and the same file path rewritten with other kinds of dataset and reopened ([a, b, a] for all pairs).'
 )
 LEVEL_TEXT = ("all 41 registration orders x 14 datasets against a detection model written from the docstrings; all binding "
               "histories to depth 3/4 plus the reachable canonical state graph to depth 6 against a map model "
